@@ -20,7 +20,8 @@ def boundary(bits, rng, nrand):
     mx = (1 << bits) - 1
     vs = {0, 1, 2, 0x7f, 0x80, 0xff, 0x100, 63, 64, (1 << 14) - 1, 1 << 14, (1 << 30) - 1, 1 << 30, (1 << 31) - 1, 1 << 31,
           (1 << 15) - 1, 1 << 15, (1 << 32) - 1, 1 << 32, (1 << 63) - 1, 1 << 63, (1 << 64) - 1, 1 << 64, 9999, 10000, 10**8 - 1, 10**8,
-          (1 << 63) // 100, (1 << 63) // 100 + 1, mx, mx - 1, mx >> 1, (mx >> 1) + 1, 1 << 535, (1 << 440) - 1, 1 << 440, (1 << 448) - 1}
+          (1 << 63) // 100, (1 << 63) // 100 + 1, (1 << 63) // 100 - 1, (1 << 63) // 100 + 2, (1 << 56) - 1, 1 << 56, (1 << 57) - 1, 1 << 57, (1 << 57) + 1,
+          ((1 << 63) // 100 + (1 << 57)) // 2, (1 << 31) // 100, (1 << 31) // 100 + 1, (1 << 64) // 100, (1 << 64) // 100 + 1, mx, mx - 1, mx >> 1, (mx >> 1) + 1, 1 << 535, (1 << 440) - 1, 1 << 440, (1 << 448) - 1}
     for k in range(1, (bits + 7) // 8 + 1):
         if bits <= 576 or k % 16 in (0, 1) or k > (bits + 7) // 8 - 2:
             vs.update({(1 << (8 * k)) - 1, 1 << (8 * k), 1 << (8 * k - 1), (1 << (8 * k - 1)) - 1})
